@@ -42,10 +42,10 @@ func checkPair(old, new []byte) (vs []kit.V, hunks int) {
 	}
 	if msg != "" {
 		class := strings.SplitN(msg, ":", 2)[0]
-		class = strings.ReplaceAll(class, " ", "-")
-		if len(class) > 40 {
-			class = class[:40]
+		if w := strings.Fields(class); len(w) > 4 {
+			class = strings.Join(w[:4], " ")
 		}
+		class = strings.ReplaceAll(class, " ", "-")
 		vs = append(vs, kit.V{
 			Key:  fmt.Sprintf("%s old=%s new=%s", class, kit.Q(old), kit.Q(new)),
 			What: fmt.Sprintf("Diff(%q, %q) = %q: %s", old, new, out, msg),
@@ -268,6 +268,7 @@ func main() {
 		pairFamily(fmt.Sprintf("all pairs of texts <= %d lines over {a,b,c,d,e}", pick(3, 4)), texts([]string{"a", "b", "c", "d", "e"}, pick(3, 4))),
 		pairFamily(fmt.Sprintf("all pairs of texts <= %d lines over {a,b}", pick(7, 9)), texts([]string{"a", "b"}, pick(7, 9))),
 		pairFamily("all pairs of texts <= 3 lines of diff-syntax look-alikes", texts([]string{"a", "-a", "+a", " a", "@@ -1 +1 @@", "@@ -1,1 +1,1 @@", `\ No newline at end of file`, "--- old", "+++ new", ""}, pick(2, 3))),
+		pairFamily(fmt.Sprintf("all pairs of texts <= %d lines whose content must pass through untouched (format verbs, backslashes, tab, CR, NUL, invalid UTF-8)", pick(2, 3)), texts([]string{"%", "%d %s", "%%", "100%", `\\n`, `\\`, "\t", "a\r", "\x00", "\xff\xfe", "é", "%!d(MISSING)"}, pick(2, 3))),
 		editFamily(fmt.Sprintf("edit scripts (keep/delete/replace/insert per line) over %d distinct lines", pick(10, 12)), pick(10, 12), []uint{0}),
 		editFamily(fmt.Sprintf("edit scripts over %d lines, every subset of positions replaced by a repeated filler line", pick(7, 8)), pick(7, 8), allDups(pick(7, 8))),
 		sparseFamily(fmt.Sprintf("one of delete/replace/insert at every choice of <= %d positions among %d distinct lines", pick(3, 4), pick(24, 30)), pick(24, 30), pick(3, 4)),
@@ -314,10 +315,10 @@ func main() {
 		wg.Wait()
 	}
 	r.Sample(map[string]string{"old": "l0\nl1\nl2\nl3\nl4\nl5\nl6\nl7\nl8\n", "new": "r0\nl1\nl2\nl3\nl4\nl5\nl6\nl7\nr8", "note": "member of the edit-script family (two changes separated by 7 common lines)"})
-	if th {
-		patchStride(r, fams[4], 997)
-	} else {
-		patchStride(r, fams[4], 20011)
+	for _, fam := range fams {
+		if strings.HasPrefix(fam.name, "edit scripts (keep") {
+			patchStride(r, fam, int64(pick(20011, 9973)))
+		}
 	}
 	r.Set("evaluations", evals)
 	r.Set("distinct_nontrivial", unequal)
